@@ -222,6 +222,27 @@ fn db_case(seed: u64, drv: &mut Drv, rep: &mut Report) {
             }
         }
     }
+    // a long run of hidden versions of one user key (130-300 overwrites kept alive by a snapshot
+    // taken before them), so that stepping over a key means stepping over hundreds of records
+    let mut hold: Option<raindb::Snapshot> = None;
+    if rng.chance(1, 3) {
+        hold = Some(db.get_snapshot());
+        let k = if !oracle.is_empty() && rng.chance(3, 4) { oracle.keys().nth(rng.below(oracle.len() as u64) as usize).unwrap().clone() } else { gen_key(&mut rng, space) };
+        let nver = rng.range(130, 300);
+        for j in 0..nver {
+            if rng.chance(1, 12) {
+                if db.delete(Default::default(), k.clone()).is_ok() {
+                    oracle.remove(&k);
+                }
+            } else {
+                let v = format!("h{j}").into_bytes();
+                if db.put(Default::default(), k.clone(), v.clone()).is_ok() {
+                    oracle.insert(k.clone(), v);
+                }
+            }
+        }
+        rep.count("c04.db.long-run-of-hidden-versions");
+    }
     db.verif_wait_idle(std::time::Duration::from_secs(20));
     let st = db.verif_state();
     // sources for the model
@@ -354,6 +375,9 @@ fn db_case(seed: u64, drv: &mut Drv, rep: &mut Report) {
         rep.count("model_drift");
     }
     if let Some((s, _)) = snap {
+        db.release_snapshot(s);
+    }
+    if let Some(s) = hold {
         db.release_snapshot(s);
     }
     let _ = std::panic::catch_unwind(std::panic::AssertUnwindSafe(move || drop(db)));
